@@ -291,6 +291,53 @@ def run(ctx):
             nots_ = [1 for bb_ in cb_.live_blocks() for s_ in cb_.stmts(bb_) if 'assign' in s_ and s_['rv'].get('k') == 'un' and s_['rv'].get('op') == 'Not']
             if cb_.local_ty(0) == 'bool' and (ne_ or eq_):
                 keeps_others = (len(ne_) == 1 and not eq_ and not nots_) or (len(eq_) == 1 and not ne_ and len(nots_) == 1)
+    if b is not None and not keeps_others:
+        # the loop spelling: `for &v in &union.variants { if v != null { variants.push(v) } }` - the push sits on the
+        # "differs from null" edge of the one test of keys, written as `!=`, `!(==)` or through a small predicate
+        # closure (`let is_null = |k| k == null; if !is_null(v) { push }`)
+        def pred_polarity(t_):
+            """True if the call's result means "same key as null", False if it means "differs", None if it is not a key test"""
+            c_ = t_.get('callee') or ''
+            if c_.endswith('PartialEq::eq'):
+                return True
+            if c_.endswith('PartialEq::ne'):
+                return False
+            if c_.endswith(('Fn::call', 'FnMut::call_mut', 'FnOnce::call_once')):
+                for a_ in origin(b, t_['args'][0]).atoms:
+                    cb2 = f.bodies.get(a_[1]) if a_[0] == 'closure' else None
+                    if cb2 is not None and cb2.local_ty(0) == 'bool':
+                        cl2 = [(t2.get('callee') or '') for bb2, t2 in cb2.calls() if not cb2.is_cleanup(bb2)]
+                        n2 = sum(1 for bb2 in cb2.live_blocks() for s2 in cb2.stmts(bb2) if 'assign' in s2 and s2['rv'].get('k') == 'un' and s2['rv'].get('op') == 'Not')
+                        if len(cl2) == 1 and cl2[0].endswith('PartialEq::eq'):
+                            return (n2 % 2) == 0
+                        if len(cl2) == 1 and cl2[0].endswith('PartialEq::ne'):
+                            return (n2 % 2) == 1
+            return None
+        pushes_ = [bb_ for bb_, t_ in b.calls() if not b.is_cleanup(bb_) and call_matches(t_, ['Vec::<T, A>::push'])]
+        tests_ = []
+        for sb_ in sorted(b.live_blocks()):
+            if b.term(sb_)['k'] != 'switch' or b.is_cleanup(sb_):
+                continue
+            si_ = b.switch_info(sb_)
+            if si_.get('kind') == 'enum':
+                continue
+            cond_ = switch_condition(b, si_)
+            neg_ = False
+            while cond_[0] == 'not':
+                neg_, cond_ = not neg_, cond_[1]
+            if cond_[0] != 'call':
+                continue
+            pol_ = pred_polarity(cond_[2])
+            if pol_ is None:
+                continue
+            z_ = [x['bb'] for x in b.term(sb_)['targets'] if x['v'] == 0]
+            true_edge, false_edge = b.term(sb_)['otherwise'], (z_[0] if z_ else None)
+            same_means_true = (pol_ != neg_)
+            tests_.append((false_edge, true_edge) if same_means_true else (true_edge, false_edge))     # (differs edge, same edge)
+        if len(tests_) == 1:
+            differs, same = tests_[0]
+            inner_push = [p_ for p_ in pushes_ if differs is not None and b.dominates(differs, p_)]
+            keeps_others = bool(inner_push) and same is not None and not any(b.dominates(same, p_) for p_ in pushes_)
     ctx.ob('SHAPES', 'Option-flatten-keeps-every-other-variant', flat and keeps_others, short_loc(b.span) if b else None,
            'the filter over the inner union\'s variants keeps those whose key is not the null key: %s' % keeps_others)
     ctx.ob('SHAPES', 'Option-flatten-drops-null-by-key', flat and not peeks, short_loc(b.span) if b else None,
